@@ -527,7 +527,70 @@ pub fn c08_sequence_case(ctx: &Ctx, k: usize, rep: &mut Report) {
     rep.distinct.insert(fnv64(hist.as_bytes()));
 }
 
+/// The three planes as windows of ONE buffer at arbitrary offsets: partially overlapping, nested (a chroma
+/// window inside the luma window), adjacent or far apart. The planes are only read, so nothing forbids it
+/// (a decoder that keeps a picture in one allocation, or a caller cropping, passes exactly this).
+pub fn c08_window_case(ctx: &Ctx, k: usize, rep: &mut Report) {
+    let kf = coef();
+    let mut rng = Rng::new(ctx.seed ^ 0x77c08, k as u64);
+    let lim = if ctx.miri() { 9 } else { 28 };
+    let (w, h) = (1 + rng.below(lim) as usize, 1 + rng.below(lim) as usize);
+    let (cw, ch) = ((w + 1) / 2, (h + 1) / 2);
+    let (ly, lc) = (w * h, cw * ch);
+    let mut buf = vec![0u8; ly + 2 * lc + 8];
+    rng.fill(&mut buf);
+    let oy = rng.below((buf.len() - ly + 1) as u64) as usize;
+    let ob = rng.below((buf.len() - lc + 1) as u64) as usize;
+    let (or, relation) = match rng.below(5) {
+        0 => ((ob + 1).min(buf.len() - lc), "shifted-by-one"),
+        1 => ((ob + lc).min(buf.len() - lc), "adjacent"),
+        2 => (ob.saturating_sub(1 + rng.below(lc as u64) as usize), "overlapping-before"),
+        3 => ((oy + rng.below(ly as u64) as usize).min(buf.len() - lc), "inside-luma"),
+        _ => (rng.below((buf.len() - lc + 1) as u64) as usize, "anywhere"),
+    };
+    let what = format!("{}x{} planes at offsets {}/{}/{} of one {}-byte buffer ({})", w, h, oy, ob, or, buf.len(), relation);
+    let coords = || J::obj().set("property", "C08").set("kind", "window").set("tier", ctx.tier_name()).set("seed", ctx.seed).set("stage", ctx.stage.clone()).set("k", k).set("what", what.clone());
+    rep.evaluations += 1;
+    let out = match catch(|| yuv420_to_rgba(&buf[oy..oy + ly], &buf[ob..ob + lc], &buf[or..or + lc], w)) {
+        Ok(o) => o,
+        Err(p) => {
+            rep.violation(format!("panic@{}", p.loc), format!("{}: panicked: {}", what, p.msg), coords());
+            return;
+        }
+    };
+    if out.len() != 4 * w * h {
+        rep.violation("window/length", format!("{}: {} bytes, expected {}", what, out.len(), 4 * w * h), coords());
+        return;
+    }
+    for j in 0..h {
+        for x in 0..w {
+            let want = convert_fixed(&kf, buf[oy + j * w + x], buf[ob + (j / 2) * cw + x / 2], buf[or + (j / 2) * cw + x / 2]);
+            if out[4 * (j * w + x)..4 * (j * w + x) + 4] != want {
+                rep.violation("window/pixel", format!("{}: pixel ({},{}) = {:?}, expected {:?}", what, x, j, &out[4 * (j * w + x)..4 * (j * w + x) + 4], want), coords());
+                return;
+            }
+        }
+    }
+    let overlap = |a: usize, la: usize, b: usize, lb: usize| a < b + lb && b < a + la && !(a == b && la == lb);
+    if overlap(ob, lc, or, lc) || overlap(oy, ly, ob, lc) || overlap(oy, ly, or, lc) {
+        rep.count("calls_with_partially_overlapping_planes");
+    }
+    rep.count(&format!("window_calls:{}", relation));
+    rep.count("window_calls_ok");
+}
+
 fn c08_sequences(ctx: &Ctx) -> Report {
+    let nw = if ctx.miri() { 32 } else { ctx.n(4000, 80000) as usize };
+    let wreps = par_shards(64, ctx.threads, |sh| {
+        let mut rep = Report::new();
+        let mut k = sh;
+        while k < nw {
+            crate::mon::guarded(&mut rep, || J::obj().set("property", "C08").set("kind", "window").set("k", k), |rep| c08_window_case(ctx, k, rep));
+            k += 64;
+        }
+        rep
+    });
+    let wrep = Report::merge_all(wreps);
     let n = if ctx.miri() { 16 } else { ctx.n(3000, 60000) as usize };
     let reps = par_shards(64, ctx.threads, |sh| {
         let mut rep = Report::new();
@@ -538,7 +601,9 @@ fn c08_sequences(ctx: &Ctx) -> Report {
         }
         rep
     });
-    Report::merge_all(reps)
+    let mut all = Report::merge_all(reps);
+    all.merge(wrep);
+    all
 }
 
 pub fn run_c08(ctx: &Ctx) -> (Report, String) {
@@ -629,6 +694,7 @@ pub fn run_c08(ctx: &Ctx) -> (Report, String) {
         rep.require("call_sequences", 2000);
         rep.require("calls_with_unaligned_luma", 2000);
         rep.require("calls_with_one_slice_as_both_chroma_planes", 1000);
+        rep.require("calls_with_partially_overlapping_planes", 2000);
     }
     // the empty picture: documented shortcut; width 0 is the documented companion value
     match catch(|| yuv420_to_rgba(&[], &[], &[], 0)) {
@@ -651,6 +717,11 @@ pub fn replay_c08(j: &J, rep: &mut Report) {
     if j.get("kind").and_then(|k| k.as_str()) == Some("sequence") {
         let ctx = Ctx { tier: if j.get("tier").and_then(|t| t.as_str()) == Some("thorough") { Tier::Thorough } else { Tier::Quick }, seed: j.get("seed").and_then(|v| v.as_i64()).unwrap_or(1) as u64, threads: 1, stage: j.get("stage").and_then(|v| v.as_str()).unwrap_or("chk").to_string(), scale_pct: 100 };
         c08_sequence_case(&ctx, j.get("k").and_then(|v| v.as_i64()).unwrap_or(0) as usize, rep);
+        return;
+    }
+    if j.get("kind").and_then(|k| k.as_str()) == Some("window") {
+        let ctx = Ctx { tier: if j.get("tier").and_then(|t| t.as_str()) == Some("thorough") { Tier::Thorough } else { Tier::Quick }, seed: j.get("seed").and_then(|v| v.as_i64()).unwrap_or(1) as u64, threads: 1, stage: j.get("stage").and_then(|v| v.as_str()).unwrap_or("chk").to_string(), scale_pct: 100 };
+        c08_window_case(&ctx, j.get("k").and_then(|v| v.as_i64()).unwrap_or(0) as usize, rep);
         return;
     }
     let k = coef();
